@@ -70,6 +70,7 @@ fn run_inner(case: &str, args: &Value) -> Option<Outcome> {
         "c29_loader" => Some(c29::loader(args)),
         "c09_validate" => Some(c09::validate(args)),
         "c09_subtype" => Some(c09::subtype(args)),
+        "c12_exec" => Some(c09::hostile(args)),
         "c13_lex" => Some(c13::lex(args)),
         "c12_parse" => Some(c12::parse(args)),
         "c12_multipart" => Some(c12::multipart(args)),
@@ -115,6 +116,7 @@ pub fn search(case: &str, seed: u64, open: &[String]) -> Option<SearchResult> {
         "c29_loader" => Box::new(c29::inputs(seed)),
         "c09_validate" => Box::new(c09::inputs(seed, open)),
         "c09_subtype" => Box::new(c09::subtype_inputs(seed, open)),
+        "c12_exec" => Box::new(c09::hostile_inputs(seed)),
         "c13_lex" => Box::new(c13::inputs(seed, open)),
         "c12_parse" => Box::new(c12::parse_inputs(seed)),
         "c12_multipart" => Box::new(c12::multipart_inputs(seed)),
